@@ -1,4 +1,5 @@
 import MakoModel.Cache.Spec
+import MakoModel.Generated.CacheStatus
 /-!
 Helper lemmas for C17: side conditions on the regenerated constants, `dict` lemmas, the unfolding of one
 section invocation into its four cases, and the generic "every primitive transition preserves `I`, hence
@@ -9,6 +10,10 @@ open MakoModel.Generated.Cache
 variable {R : Type} [DecidableEq R]
 
 /-! ## side conditions on `Generated/Cache.lean` (an edited source either still satisfies them or breaks these) -/
+
+/-- the translator understood the source the constants below were read from (else `Generated/CacheStatus.lean` does
+    not build and says why) -/
+theorem gen_regen_ok : True := MakoModel.Generated.CacheStatus.regen_ok
 
 theorem gen_prefix_slice : prefixSlice = cachePrefix.length := by decide
 theorem gen_key_attr_excluded : excludedAttr = cacheKeyAttr := by decide
@@ -241,16 +246,18 @@ theorem run_inv_miss (P : Params R) (env : Env) (h : Hdr) (arg : Option Expr) (s
     run P env (.inv h arg site body rest) st =
       let env' := scope P h env arg
       let K := backendKey P st h env'
-      let b := run P env' body ((afterCall P st h env').emit (.enter P.tid (fname h) K .miss))
+      let st0 := (afterCall P st h env').emit (.enter P.tid (fname h) K .miss)
+      let b := run P env' body st0
       let v := finish h b.1
-      let r := run P env rest ((b.2.put K v).emit (.created P.tid (fname h) K v env'))
+      let r := run P env rest ((b.2.put K v).emit (.created P.tid (fname h) K v ⟨h, body, env', P.ctx, st0.snap⟩))
       (deliver h site v ++ r.1, r.2) := by
   unfold backendKey at hs
   simp [run, hc, hen, hs, afterCall, sentKw, backendKey]
 
 /-! ## every primitive transition preserves `I`, hence rendering does -/
 
-/-- `I` is preserved by the five primitive transitions a render of (a part of) the call tree `T` can make -/
+/-- `I` is preserved by the five primitive transitions a render of (a part of) the call tree `T` can make (the last
+    one – a creation function has returned – knows which body ran from which state) -/
 structure Preserved (P : Params R) (T : Items) (I : St R → Prop) : Prop where
   tick : ∀ st t, I st → I (st.emit (.tick t))
   bypass : ∀ st h, h ∈ hdrs T → I st → st.enabled P.tid = false → I (st.emit (.bypass P.tid (fname h)))
@@ -258,8 +265,9 @@ structure Preserved (P : Params R) (T : Items) (I : St R → Prop) : Prop where
     I ((afterCall P st h env').emit (.enter P.tid (fname h) (backendKey P st h env') (.hit v)))
   miss : ∀ st h env', h ∈ hdrs T → I st → st.enabled P.tid = true → st.store (backendKey P st h env') = none →
     I ((afterCall P st h env').emit (.enter P.tid (fname h) (backendKey P st h env') .miss))
-  created : ∀ st h env' r key v, h ∈ hdrs T → I st →
-    I ((st.put (cid P.tm, r, key) v).emit (.created P.tid (fname h) (cid P.tm, r, key) v env'))
+  created : ∀ st0 h body env' r key, h ∈ hdrs T → I (run P env' body st0).2 →
+    I (((run P env' body st0).2.put (cid P.tm, r, key) (finish h (run P env' body st0).1)).emit
+      (.created P.tid (fname h) (cid P.tm, r, key) (finish h (run P env' body st0).1) ⟨h, body, env', P.ctx, st0.snap⟩))
 
 theorem run_preserves (P : Params R) (T : Items) (I : St R → Prop) (hp : Preserved P T I) :
     ∀ (its : Items) (env : Env) (st : St R), (∀ h, h ∈ hdrs its → h ∈ hdrs T) → I st → I (run P env its st).2 := by
@@ -285,7 +293,7 @@ theorem run_preserves (P : Params R) (T : Items) (I : St R → Prop) (hp : Prese
         | none =>
           rw [run_inv_miss P env h arg site body rest st hc hen hs]
           refine ihr env _ hsr ?_
-          exact hp.created _ h _ _ _ _ hh (ihb _ _ hsb (hp.miss st h _ hh hi hen hs))
+          exact hp.created _ h body _ _ _ hh (ihb _ _ hsb (hp.miss st h _ hh hi hen hs))
       · have hen' : st.enabled P.tid = false := by simpa using hen
         rw [run_inv_disabled P env h arg site body rest st hc hen']
         exact ihr env _ hsr (ihb _ _ hsb (hp.bypass st h hh hi hen'))
